@@ -1,11 +1,15 @@
+import os
 import vf
+
+FILES = ["cmd/zoekt-local-sync/zz_verif_c33_test.go", "cmd/zoekt-local-sync/zz_verif_c33gen_test.go"]
 
 SPEC = dict(
     level="proof",
-    harness=dict(pkg_dir="cmd/zoekt-local-sync", run="TestVerifC33$", files=["cmd/zoekt-local-sync/zz_verif_c33_test.go"],
+    harness=dict(pkg_dir="cmd/zoekt-local-sync", run="TestVerifC33$", files=FILES,
                  n_quick=90, n_thorough=800, pkg_name="main"),
     runner=dict(imports=["From ZV Require Import Lib.Base Model.LocalSync Model.LocalSyncIdem."], case_type="lscase3",
                 mismatch_fn="ls3_mismatches", shard=100),
+    extra_targets=("Model/LocalSyncIdem.vo",),
     rule="histories over a scratch world (roots r1, r2, r1/team, r3.git; work/bare/empty/broken git repositories copied from "
          "git-CLI templates; add, move between roots keeping the name, rename, new commit, zoekt.web-url change, delete, clutter) "
          "and one index directory (missing/empty/populated by earlier real runs, shards of other tools, foreign files, corrupt "
@@ -14,7 +18,10 @@ SPEC = dict(
          "sets incl. overlapping/duplicate/missing roots, or remove with name/source selectors); non-trivial = the preview "
          "announces at least one removal or indexing, or fails. 60 % of the histories start from an index brought up to date by a "
          "set-up run; class labels decision=... record which IndexState branch each previewed decision came from.",
-    trusted_base=["correspondence harness harness/overlay/cmd/zoekt-local-sync/zz_verif_c33_test.go (generator, output parser, snapshots, Go oracle)",
+    trusted_base=["translator harness/overlay/cmd/zoekt-local-sync/zz_verif_c33gen_test.go (go/ast: calls of os.* outside a read-only whitelist, "
+                  "gitindex.IndexGitRepo, index.NewBuilder; syntactic dominance by conditions mentioning force/dry; calls through function "
+                  "values, methods of other packages and goroutines are not followed)",
+                  "correspondence harness harness/overlay/cmd/zoekt-local-sync/zz_verif_c33_test.go (generator, output parser, snapshots, Go oracle)",
                   "shard file naming (index.shardName: QueryEscape, injective below 200 bytes) abstracted to the key (name, number)",
                   "IndexState's comparisons other than the name abstracted to one fingerprint (options hash, HEAD commit, zoekt.web-url)",
                   "file-system operations succeed (no faults/crashes/concurrent writers); paths absolute and clean; no symlinks"],
@@ -22,5 +29,24 @@ SPEC = dict(
                  "repository names below 200 bytes (shard file names injective)"],
 )
 
+def _gen(ctx):
+    """regenerate coq/Generated/LocalSyncSinks.v (fs-mutating calls of cmd/zoekt-local-sync + indexGitRepo's DryRun gate) from the checked tree"""
+    g = vf.go_harness(ctx, "cmd/zoekt-local-sync", "TestVerifC33Gen$", FILES, 1, out_name="gen.jsonl", timeout=600, pkg_name="main")
+    texts = {r["file"]: r["text"] for r in g["records"] if r.get("kind") == "gen"}
+    ok = g["rc"] == 0 and "LocalSyncSinks.v" in texts
+    if not ok:  # make the obligation over the table fail loudly instead of silently re-using a stale table
+        ctx.notes.append("translator failed: " + g["log"][-1500:])
+        texts = {"LocalSyncSinks.v": "(* translator failed *)\nFrom Coq Require Import String List.\nImport ListNotations.\nLocal Open Scope string_scope.\n"
+                 "Definition ls_sinks : list (string * string * string) := [(\"translator failed\", \"\", \"\")].\n"
+                 "Definition ls_sink_calls : list (string * string * string * string) := [].\n"
+                 "Definition ls_gate : bool * list string := (false, []).\n"}
+    vf.write_if_changed(os.path.join(vf.COQ, "Generated", "LocalSyncSinks.v"), texts["LocalSyncSinks.v"])
+    return ok, g
+
+
 def run(ctx):
-    return vf.standard_check(ctx, SPEC)
+    ok, g = _gen(ctx)
+    rc = vf.standard_check(ctx, SPEC)
+    if not ok:
+        print("note: the C33 translator failed (the obligation over Generated/LocalSyncSinks.v was made to fail): " + g["log"][-600:])
+    return rc
